@@ -395,10 +395,19 @@ pub fn run_c07(p: &Params) -> Report {
         return rep;
     }
     let mut i = 0u64;
+    let adlt_bin = p.val("adlt_bin");
+    let remote_every: u64 = p.val("remote_every").and_then(|v| v.parse().ok()).unwrap_or(4000);
+    let mut remote = RemoteFrontDoor::default();
     while (p.cases == 0 || i < p.cases) && !p.time_up() {
         let mut rng = Rng::new(p.case_seed(i) ^ 0xC07);
         let (s, s2) = if rng.chance(1, 12) { (gen_many_lifecycles(&mut rng), None) } else { gen_case(p, i, &mut rng) };
         i += 1;
+        if let Some(bin) = &adlt_bin {
+            if i % remote_every == 0 {
+                // the table a remote client ends up with (the server forwards table updates as deltas by refresh index)
+                remote.case(&mut rep, &mut rng, bin, i);
+            }
+        }
         let mut passes = vec![to_dlt(&s, i as u32)];
         if let Some(s2) = &s2 {
             passes.push(to_dlt(s2, i as u32 ^ 0x8000_0000));
@@ -431,6 +440,125 @@ pub fn run_c07(p: &Params) -> Report {
         }
     }
     rep
+}
+
+// ---------------------------------------------------------------- C07 through `adlt remote`
+
+/// C07 at the remote front door: after a file has been processed completely the lifecycle table the *client* has
+/// (latest update per lifecycle id) must account for every message: the counts add up to the number of messages.
+/// The server runs with tiny channel capacities (hook H4) so that the detector blocks in its final flush while the
+/// server loop keeps polling the table.
+#[derive(Default)]
+pub struct RemoteFrontDoor {
+    srv: Option<crate::remote::Server>,
+    dir: Option<tempfile::TempDir>,
+    used: u32,
+}
+impl RemoteFrontDoor {
+    pub fn case(&mut self, rep: &mut Report, rng: &mut Rng, bin: &str, case_no: u64) {
+        use crate::remote::*;
+        use std::time::{Duration, Instant};
+        if self.dir.is_none() {
+            self.dir = tempfile::tempdir().ok();
+        }
+        let dir = match &self.dir {
+            Some(d) => d.path().to_path_buf(),
+            None => {
+                rep.inc("inconclusive_tempdir");
+                return;
+            }
+        };
+        if self.used >= 6 {
+            if let Some(s) = self.srv.take() {
+                s.kill();
+            }
+            self.used = 0;
+        }
+        if self.srv.is_none() {
+            let cap = *rng.pick(&["1", "2", "7", "64"]);
+            self.srv = Server::spawn(bin, &dir, &[("ADLT_VERIF_CHAN_CAP".to_string(), cap.to_string())]);
+        }
+        let port = match &self.srv {
+            Some(s) => s.port,
+            None => {
+                rep.inc("inconclusive_server_spawn");
+                return;
+            }
+        };
+        self.used += 1;
+        // a trace where a confirmed lifecycle keeps receiving messages while another one stays buffered until the end
+        let hostile = rng.chance(1, 3);
+        let scen = if rng.chance(1, 3) { gen_targeted(rng) } else { gen_scenario(rng, hostile, 300) };
+        let msgs = to_dlt(&scen, case_no as u32);
+        if msgs.is_empty() {
+            return;
+        }
+        let mut bytes = Vec::new();
+        for m in &msgs {
+            let _ = m.to_write(&mut bytes);
+        }
+        let path = dir.join(format!("c07_{}.dlt", case_no));
+        if std::fs::write(&path, &bytes).is_err() {
+            rep.inc("inconclusive_tempdir");
+            return;
+        }
+        let n = msgs.len() as u32;
+        let mut cl = match Client::connect(port) {
+            Some(c) => c,
+            None => {
+                rep.inc("inconclusive_connect_failed");
+                if let Some(s) = self.srv.take() {
+                    s.kill();
+                }
+                return;
+            }
+        };
+        let rp = || json!({"kind":"c07-remote","scenario": scenario_json(&scen), "messages": n});
+        cl.send(&format!("open {}", json!({"files":[path.to_string_lossy()]})));
+        let (r, _) = cl.wait_reply(Duration::from_secs(30));
+        if !r.as_deref().map_or(false, |r| r.starts_with("ok:")) {
+            rep.inc("inconclusive_remote_open");
+            let _ = std::fs::remove_file(&path);
+            return;
+        }
+        // until the server has announced all messages ...
+        let t0 = Instant::now();
+        while cl.file_msgs_seen < n && t0.elapsed() < Duration::from_secs(60) {
+            let _ = cl.poll();
+        }
+        if cl.file_msgs_seen < n {
+            rep.inc("inconclusive_remote_not_parsed_in_time");
+            let _ = std::fs::remove_file(&path);
+            return;
+        }
+        // ... and then until the client's table accounts for all of them (bounded: 10 s of further updates)
+        let t1 = Instant::now();
+        let mut sum: u64 = cl.lifecycle_counts.values().map(|v| *v as u64).sum();
+        while sum != n as u64 && t1.elapsed() < Duration::from_secs(10) {
+            let _ = cl.poll();
+            sum = cl.lifecycle_counts.values().map(|v| *v as u64).sum();
+        }
+        rep.inc("remote_tables_checked");
+        rep.add("remote_lifecycles_seen", cl.lifecycle_counts.len() as u64);
+        if sum != n as u64 {
+            let mut t: Vec<(u32, u32)> = cl.lifecycle_counts.iter().map(|(k, v)| (*k, *v)).collect();
+            t.sort_unstable();
+            rep.violation("remote:client-table-counts-do-not-add-up", format!("all {} messages of the file were announced (FileInfo), but 10 s later the lifecycle table received by the client accounts for {} messages: {:?}", n, sum, t), rp());
+            if let Some(s) = self.srv.take() {
+                s.kill();
+            }
+        }
+        cl.send("close");
+        let _ = cl.wait_reply(Duration::from_secs(30));
+        let _ = std::fs::remove_file(&path);
+    }
+}
+impl Drop for RemoteFrontDoor {
+    fn drop(&mut self) {
+        if let Some(s) = self.srv.take() {
+            s.kill();
+        }
+    }
 }
 
 // ---------------------------------------------------------------- C08
